@@ -12,7 +12,7 @@ from simv.model.schema import (
 DIR_LOCATIONS = ["SCHEMA", "SCALAR", "OBJECT", "FIELD_DEFINITION", "ARGUMENT_DEFINITION", "INTERFACE", "UNION", "ENUM", "ENUM_VALUE",
                  "INPUT_OBJECT", "INPUT_FIELD_DEFINITION", "QUERY", "MUTATION", "SUBSCRIPTION", "FIELD", "FRAGMENT_DEFINITION",
                  "FRAGMENT_SPREAD", "INLINE_FRAGMENT"]
-DESCS = ["A description.", "Multi word description with `ticks`", "été ünïcode", "x"]
+DESCS = ["A description.", "Multi word description with `ticks`", "été ünïcode", "x", ""]
 
 
 def decorate(schema, tape):
@@ -56,7 +56,7 @@ def decorate(schema, tape):
             for v in td.values:
                 v.directives = apply("ENUM_VALUE")
                 if t.chance(25):
-                    v.deprecated = True if t.chance(40) else t.choose(["old", "use B", ""])
+                    v.deprecated = True if t.chance(40) else t.choose(["old", "use B", "", "see \\u0041"])
             if all(v.deprecated is not None for v in td.values):
                 td.values[0].deprecated = None
         elif kind == "INPUT_OBJECT":
